@@ -143,10 +143,18 @@ fn pose(name: &str, p: &Pose, lex: &mut Lex) -> XN {
     let tr = node("translation", "Structure", vec![num_f("x", p.trans[0], lex), num_f("y", p.trans[1], lex), num_f("z", p.trans[2], lex)], true);
     node(name, "Structure", vec![rot, tr], true)
 }
-fn limit(name: &str, v: &LimitVal, lex: &mut Lex) -> XN {
+fn limit(name: &str, v: &LimitVal, lex: &mut Lex, limited: Option<&RType>) -> XN {
     match v {
         LimitVal::I(i) => XN::Num { name: name.into(), ty: "Integer", attrs: vec![], text: i.to_string(), zero: *i == 0 },
-        LimitVal::SI(i) => XN::Num { name: name.into(), ty: "ScaledInteger", attrs: vec![], text: i.to_string(), zero: *i == 0 },
+        LimitVal::SI(i) => {
+            // a ScaledInteger limit of a scaled-integer attribute is stated in that attribute's units
+            let mut attrs = vec![];
+            if let Some(RType::Scaled { scale, offset, .. }) = limited {
+                attrs.push(("scale".to_string(), fmt_f64(scale.0, lex)));
+                attrs.push(("offset".to_string(), fmt_f64(offset.0, lex)));
+            }
+            XN::Num { name: name.into(), ty: "ScaledInteger", attrs, text: i.to_string(), zero: *i == 0 }
+        }
         LimitVal::S(f) => XN::Num {
             name: name.into(),
             ty: "Float",
@@ -359,9 +367,10 @@ fn build_tree(s: &Scene, off: &Offsets, lex: &mut Lex) -> XN {
         }
         if let Some(b) = &m.intensity_limits {
             let mut kk = vec![];
+            let ty = c.proto.iter().find(|r| r.prefix.is_none() && r.name == "intensity").map(|r| &r.ty);
             for (n, v) in ["intensityMinimum", "intensityMaximum"].iter().zip(b.iter()) {
                 if let Some(v) = v {
-                    kk.push(limit(n, v, lex));
+                    kk.push(limit(n, v, lex, ty));
                 }
             }
             k.push(node("intensityLimits", "Structure", kk, true));
@@ -369,9 +378,10 @@ fn build_tree(s: &Scene, off: &Offsets, lex: &mut Lex) -> XN {
         if let Some(b) = &m.color_limits {
             let names = ["colorRedMinimum", "colorRedMaximum", "colorGreenMinimum", "colorGreenMaximum", "colorBlueMinimum", "colorBlueMaximum"];
             let mut kk = vec![];
-            for (n, v) in names.iter().zip(b.iter()) {
+            for (k, (n, v)) in names.iter().zip(b.iter()).enumerate() {
+                let ty = c.proto.iter().find(|r| r.prefix.is_none() && r.name == ["colorRed", "colorGreen", "colorBlue"][k / 2]).map(|r| &r.ty);
                 if let Some(v) = v {
-                    kk.push(limit(n, v, lex));
+                    kk.push(limit(n, v, lex, ty));
                 }
             }
             k.push(node("colorLimits", "Structure", kk, true));
